@@ -1,6 +1,7 @@
 package main
 
 import (
+	"strings"
 	"math"
 
 	"verifgen/hx"
@@ -166,6 +167,18 @@ func (s *Schema) gen(r *hx.Rand, t RType, o genOpts) *Val {
 			seen[k] = true
 			v.Keys = append(v.Keys, k)
 			v.Items = append(v.Items, s.gen(r, *t.Map, o))
+			// next to an entry k of a map of records, sometimes an entry whose KEY spells a path below k ("k/<field>"): the two
+			// have different scopes (one key vs key + field) although their joined texts coincide
+			if t.Map.Reference != nil && r.Chance(25) && !strings.Contains(k, "/") {
+				if n := s.Types[t.Map.Reference.Name]; n != nil && n.Kind == "record" && len(n.Fields) > 0 {
+					k2 := k + "/" + n.Fields[r.Intn(len(n.Fields))].Name
+					if !seen[k2] {
+						seen[k2] = true
+						v.Keys = append(v.Keys, k2)
+						v.Items = append(v.Items, s.gen(r, *t.Map, o))
+					}
+				}
+			}
 		}
 		return v
 	}
